@@ -118,6 +118,8 @@ def member_to_prophy(m):
         return '%s %s<@%s>;' % (t, m.name, m.sizer)
     if m.mk == 'limited':
         return '%s %s<%s>;' % (t, m.name, m.size)
+    if m.mk == 'limext':      # limited by an earlier member: only through the patch rule `<struct> limited <x> <sizer>`
+        return '%s %s[%s];' % (t, m.name, m.size)
     if m.mk == 'greedy':
         return '%s %s<...>;' % (t, m.name)
     raise ValueError(m.mk)
@@ -139,6 +141,12 @@ def decl_to_prophy(d):
 
 def to_prophy(schema):
     return '\n\n'.join(decl_to_prophy(d) for d in schema.decls) + '\n'
+
+
+def patch_lines(schema):
+    """the patch file that turns the `limext` members (rendered as fixed arrays) into arrays limited by their sizer"""
+    return ''.join('%s limited %s %s\n' % (d.name, m.name, m.sizer)
+                   for d in schema.decls if isinstance(d, Struct) for m in d.members if m.mk == 'limext')
 
 
 def has_shifts(schema):
@@ -205,6 +213,8 @@ def tree(schema, type_name, sizer=lambda n: 'num_of_' + n):
             elif m.mk == 'dyn':
                 ms.append({'n': sizer(m.name), 't': {'k': 'prim', 'p': 'u32'}, 'mk': 'plain'})
                 ms.append({'n': m.name, 't': t, 'mk': 'dyn', 'sizer': sizer(m.name), 'shift': getattr(m, 'shift', 0)})
+            elif m.mk == 'limext':
+                ms.append({'n': m.name, 't': t, 'mk': 'limited', 'sizer': m.sizer, 'size': eval_size(schema, m.size)})
             elif m.mk == 'limited':
                 ms.append({'n': sizer(m.name), 't': {'k': 'prim', 'p': 'u32'}, 'mk': 'plain'})
                 ms.append({'n': m.name, 't': t, 'mk': 'limited', 'sizer': sizer(m.name),
